@@ -8,27 +8,23 @@ and the definition of the pump), plus the surplus theorem for conforming encodin
 -/
 namespace C05
 
-theorem pumpOutcome_superfluous {x : List Byte} {out : List (Nat × Event)} {pos : Nat} {res : Except Err Val}
-    {rest : List Byte} {v : Val} (h : pumpOutcome x out pos res = .superfluous rest v) :
+theorem pumpOutcome_superfluous {x : List Byte} {pos : Nat} {res : Except Err Val}
+    {rest : List Byte} {v : Val} (h : pumpOutcome x pos res = .superfluous rest v) :
     res = .ok v ∧ pos < x.length ∧ rest = x.drop pos := by
   unfold pumpOutcome at h
   split at h
   · split at h
+    · rename_i hlt; simp only [Outcome.superfluous.injEq] at h; exact ⟨by rw [h.2], hlt, h.1.symm⟩
     · simp at h
-    · split at h
-      · rename_i hlt; simp only [Outcome.superfluous.injEq] at h; exact ⟨by rw [h.2], hlt, h.1.symm⟩
-      · simp at h
   · simp at h
   · simp at h
   · simp at h
 
-theorem pumpOutcome_depleted {x : List Byte} {out : List (Nat × Event)} {pos : Nat} {res : Except Err Val}
-    (h : pumpOutcome x out pos res = .depleted) : res = .error .depleted := by
+theorem pumpOutcome_depleted {x : List Byte} {pos : Nat} {res : Except Err Val}
+    (h : pumpOutcome x pos res = .depleted) : res = .error .depleted := by
   unfold pumpOutcome at h
   split at h
-  · split at h
-    · simp at h
-    · split at h <;> simp at h
+  · split at h <;> simp at h
   · rfl
   · simp at h
   · simp at h
